@@ -115,7 +115,10 @@ func (vm *VM) GetLocals(locals []Object) []Object {
 // Abort aborts the VM execution. It is safe to call this method from another
 // goroutine.
 func (vm *VM) Abort() {
+	verifPoint(vpAbortEnter, vm)
+	defer verifPoint(vpAbortExit, vm)
 	vm.pool.abort()
+	verifPoint(vpAbortMid, vm)
 	vm.abort.Store(1)
 }
 
@@ -127,8 +130,11 @@ func (vm *VM) Aborted() bool {
 
 // Run runs VM and executes the instructions until the OpReturn Opcode or Abort call.
 func (vm *VM) Run(globals Object, args ...Object) (Object, error) {
+	verifPoint(vpRunEnter, vm)
+	defer verifPoint(vpRunExit, vm)
 	vm.mu.Lock()
 	defer vm.mu.Unlock()
+	verifPoint(vpRunLocked, vm)
 
 	if vm.bytecode == nil || vm.bytecode.Main == nil {
 		return nil, errors.New("invalid Bytecode")
@@ -136,6 +142,7 @@ func (vm *VM) Run(globals Object, args ...Object) (Object, error) {
 
 	vm.err = nil
 	vm.abort.Store(0)
+	verifPoint(vpRunReset, vm)
 	vm.initGlobals(globals)
 	vm.initLocals(args)
 	vm.initCurrentFrame()
@@ -185,6 +192,7 @@ func (vm *VM) run() (rerun bool) {
 func (vm *VM) loop() {
 VMLoop:
 	for vm.abort.Load() == 0 {
+		verifPoint(vpLoop, vm)
 		vm.ip++
 		switch vm.curInsts[vm.ip] {
 		case OpConstant:
@@ -1604,6 +1612,7 @@ func (inv *Invoker) Invoke(args ...Object) (Object, error) {
 	if inv.child.Aborted() {
 		return Undefined, ErrVMAborted
 	}
+	verifPoint(vpInvokeChecked, inv.child)
 	if inv.isCompiled {
 		return inv.child.Run(inv.vm.globals, args...)
 	}
@@ -1632,8 +1641,11 @@ type vmPool struct {
 }
 
 func (v *vmPool) abort() {
+	verifPoolPoint(vpPoolLock, v)
+	defer verifPoolPoint(vpPoolUnlocked, v)
 	v.mu.Lock()
 	defer v.mu.Unlock()
+	verifPoolPoint(vpPoolLocked, v)
 
 	for vm := range v.vms {
 		vm.Abort()
@@ -1644,6 +1656,7 @@ func (v *vmPool) acquire(cf *CompiledFunction, usePool bool) *VM {
 	var vm *VM
 	if usePool {
 		vm = vmSyncPool.Get().(*VM)
+		vm = verifPoolSwap(vm)
 	} else {
 		vm = &VM{bytecode: &Bytecode{}}
 	}
@@ -1651,8 +1664,11 @@ func (v *vmPool) acquire(cf *CompiledFunction, usePool bool) *VM {
 }
 
 func (v *vmPool) _acquire(vm *VM, cf *CompiledFunction) *VM {
+	verifPoolPoint(vpPoolLock, v)
+	defer verifPoolPoint(vpPoolUnlocked, v)
 	v.mu.Lock()
 	defer v.mu.Unlock()
+	verifPoolPoint(vpPoolLocked, v)
 
 	vm.bytecode.FileSet = v.root.bytecode.FileSet
 	vm.bytecode.Constants = v.root.bytecode.Constants
@@ -1678,19 +1694,26 @@ func (v *vmPool) release(vm *VM) {
 }
 
 func (v *vmPool) _release(vm *VM) {
+	verifPoolPoint(vpPoolLock, v)
 	v.mu.Lock()
+	verifPoolPoint(vpPoolLocked, v)
 	delete(v.vms, vm)
 	v.mu.Unlock()
+	verifPoolPoint(vpPoolUnlocked, v)
 
 	bc := vm.bytecode
 	*bc = Bytecode{}
 	*vm = VM{bytecode: bc}
 	vmSyncPool.Put(vm)
+	verifPoolPut(vm)
 }
 
 func (v *vmPool) clear() {
+	verifPoolPoint(vpPoolLock, v)
+	defer verifPoolPoint(vpPoolUnlocked, v)
 	v.mu.Lock()
 	defer v.mu.Unlock()
+	verifPoolPoint(vpPoolLocked, v)
 
 	for vm := range v.vms {
 		delete(v.vms, vm)
